@@ -214,7 +214,7 @@ def rotate_about(v, axis, angle):
     return v * np.cos(angle) + np.cross(axis, v) * np.sin(angle) + axis * np.dot(axis, v) * (1 - np.cos(angle))
 
 
-def crafted_events(tracer_cls, tkw, ice, antennas, rng):
+def crafted_events(tracer_cls, tkw, ice, antennas, rng, offcone=40):
     """list events with on-cone, off-cone, shadowed / far and below-weight particles, multi-particle events"""
     events = []
     a0 = antennas[0].position
@@ -248,12 +248,29 @@ def crafted_events(tracer_cls, tkw, ice, antennas, rng):
         if case == 3:
             p1.survival_weight = 0.2                                # below the weight cut
         events.append(pyrex.Event(parts))
+    # case 7: two particles at very different depths (different Cherenkov angles); the deep one is viewed just inside its own
+    # off-cone window, on the side away from the shallow particle's Cherenkov angle
+    off = 40.0 if offcone is None else float(offcone)
+    v1, v2 = np.array([150.0, 0.0, -150.0]), np.array([200.0, 40.0, -1500.0])
+    parts = []
+    for v, extra in ((v1, 0.0), (v2, np.radians(off - 0.7))):
+        tr = tracer_cls(v, a0, ice_model=ice, **tkw)
+        e = np.array(tr.solutions[0].emitted_direction, dtype=float) if (tr.exists and len(tr.solutions) > 0) else normalize(a0 - v)
+        perp = np.cross(e, [0.0, 0.0, 1.0])
+        if np.linalg.norm(perp) < 1e-9:
+            perp = np.array([1.0, 0.0, 0.0])
+        psi = min(np.arccos(1 / ice.index(v[2])) + extra, np.pi)
+        p = pyrex.Particle('nu_e', v, rotate_about(e, perp, psi), 1e9, interaction_type='cc')
+        p.interaction.em_frac, p.interaction.had_frac = 0.7, 0.3
+        p.survival_weight, p.interaction_weight = 1.0, 1.0
+        parts.append(p)
+    events.append(pyrex.Event(parts))
     return events
 
 
-def make_generator(kind, tracer_cls, tkw, ice, antennas, rng, workdir):
+def make_generator(kind, tracer_cls, tkw, ice, antennas, rng, workdir, offcone=40):
     if kind == 'list':
-        return pyrex.ListGenerator(crafted_events(tracer_cls, tkw, ice, antennas, rng)), 7
+        return pyrex.ListGenerator(crafted_events(tracer_cls, tkw, ice, antennas, rng, offcone)), 8
     if kind == 'cylindrical':
         return pyrex.CylindricalGenerator(dr=400, dz=600, energy=1e9, shadow=False), 3
     if kind == 'rectangular':
@@ -320,7 +337,7 @@ def record_events(combo, seed, workdir):
         ant = RecAntenna(position=pos, noisy=False)
         ant.bind(ctx, a + 1)
         ants.append(ant)
-    real_gen, nev = make_generator(combo['gen'], tcls, tkw, ice, ants, rng, workdir)
+    real_gen, nev = make_generator(combo['gen'], tcls, tkw, ice, ants, rng, workdir, combo['offcone'])
     gen = RecGen(real_gen, ctx)
     writer = None
     if combo['writer']:
